@@ -129,11 +129,13 @@ pub(crate) struct Salsa20Cipher {
 }
 
 impl Salsa20Cipher {
+    /// Create as an inner cipher, keyed with the SHA256 hash of the stream key
     pub(crate) fn new(key: &[u8]) -> Result<Self, CryptographyError> {
+        let key = crate::crypt::calculate_sha256(&[key])?;
         let iv = [0xE8, 0x30, 0x09, 0x4B, 0x97, 0x20, 0x5D, 0x2A];
 
         Ok(Salsa20Cipher {
-            cipher: Salsa20::new_from_slices(key, &iv)?,
+            cipher: Salsa20::new_from_slices(&key, &iv)?,
         })
     }
 }
